@@ -5,7 +5,6 @@ import NeumannModel.Vec.Model
 open Neumann Neumann.Proto Neumann.Vec
 
 structure DState where
-  variant : Variant
   st : State
 
 def showErr : Err → String
@@ -42,6 +41,7 @@ def showOut (q : List Int) : SearchOut → String
   | .zeroQuery => "zero"
   | .ranked m rs cut k => s!"ranked m={showMetric m} A={normSq q} cut={cut} k={k} | {showCands rs}"
   | .viaIndex snap rs cut k => s!"index m=cosine A={normSq q} cut={cut} k={k} n={snap.length} | {showCands rs}"
+  -- not produced by the current code (`cached_index_dimension_guard`); kept for totality
   | .indexDimMismatch snap => s!"index_dim_mismatch n={snap.length}"
 
 /-- `-` or `f=1;g=-2` -/
@@ -102,12 +102,10 @@ def annAnswer (out : SearchOut) (q : List Int) (keys : List String) : String :=
 def vecStep (d : DState) (line : String) : DState × String :=
   let bad := (d, "bad-op")
   let doOp (op : Op) : DState × String :=
-    let (st', r) := step d.variant d.st op
-    ({ d with st := st' }, showResp r)
+    let (st', r) := step d.st op
+    ({ st := st' }, showResp r)
   match words line with
-  | ["reset"] => ({ d with st := State.init }, "ok")
-  | ["variant", "current"] => ({ variant := Variant.current, st := State.init }, "ok")
-  | ["variant", "fixed"] => ({ variant := Variant.fixed, st := State.init }, "ok")
+  | ["reset"] => ({ st := State.init }, "ok")
   | ["store", k, v] => match parseInts v with
       | some v => doOp (.store k v) | none => bad
   | ["storem", k, v, md] => match parseInts v, parseMeta md with
@@ -158,4 +156,4 @@ def vecStep (d : DState) (line : String) : DState × String :=
       | none => bad
   | _ => bad
 
-def main : IO Unit := run vecStep { variant := Variant.current, st := State.init }
+def main : IO Unit := run vecStep { st := State.init }
